@@ -241,7 +241,8 @@ class Interp:
                 # also re-parses the text once per match, so such a step would take minutes without adding anything
                 new = self.operand(op['new'], v, depth)
                 try:
-                    grow = v.base_str.count(op['old']) * len(new) if op['old'] else (len(v) + 1) * len(new)
+                    old_ = v.base_str if isinstance(op['old'], dict) else op['old']
+                    grow = v.base_str.count(old_) * len(new) if old_ else (len(v) + 1) * len(new)
                 except TypeError:
                     grow = 0
                 if grow > 4 * self.MAX_BUILD_LEN:
@@ -353,7 +354,8 @@ def apply_op(v, op, operand):
             v.assign_str(op['t'])
         return v
     if name == 'replace':
-        return v.replace(op['old'], operand(op['new']), op.get('n', -1), **kw)
+        old_ = v.base_str if isinstance(op['old'], dict) else op['old']   # {'whole': True}: the receiver's whole text
+        return v.replace(old_, operand(op['new']), op.get('n', -1), **kw)
     if name in ('strip', 'lstrip', 'rstrip'):
         return getattr(v, name)(op.get('c'), **kw)
     if name == 'rmprefix':
